@@ -226,6 +226,9 @@ class InfosetFilter(object):
             if data.endswith("-"):
                 warnings.warn("Comments cannot end in a dash", DataLossWarning)
                 data += " "
+        if self.preventDashAtCommentEnd and data.endswith("-"):
+            warnings.warn("Comments cannot end in a dash", DataLossWarning)
+            data += " "
         return data
 
     def coerceCharacters(self, data):
